@@ -31,6 +31,14 @@ def scan_function(fn: ast.AST, member_name: str, ordering_scope: bool) -> List[T
                     out.append(("literal-identity", u(n)[:70], "`is` compares object identity: equal ints / strings from a JSON payload are not the same object"))
             if isinstance(n.ops[0], (ast.Is, ast.IsNot)) and isinstance(n.left, ast.Constant) and n.left.value is not None and not isinstance(n.left.value, bool):
                 out.append(("literal-identity", u(n)[:70], "`is` compares object identity"))
+        if isinstance(n, ast.Call) and u(n.func) in ("np.unique", "np.union1d", "np.intersect1d") and not ordering_scope:
+            out.append(("dedupe-values", u(n)[:70], "de-duplicates (and sorts) its input: categories / cells that share a value collapse into one and their respondents drop out"))
+        if (isinstance(n, ast.Call) and isinstance(n.func, ast.Name) and n.func.id in ("min", "max") and len(n.args) >= 2 and not any(k.arg == "key" for k in n.keywords)
+                and any(isinstance(a, ast.Constant) and isinstance(a.value, float) for a in n.args) and not any("len(" in u(a) for a in n.args)):
+            # a FLOAT bound next to a computed value (integer arithmetic on lengths cannot be NaN)
+            out.append(("nan-unsafe-clamp", u(n)[:70], "builtin min / max return their FIRST argument when the comparison with NaN is False: min(1.0, nan) is 1.0 - an undefined value is replaced by the bound"))
+        if isinstance(n, ast.DictComp) and isinstance(n.key, ast.Attribute) and n.key.attr in ("insertion_id", "name", "label", "anchor"):
+            out.append(("non-unique-key", u(n)[:80], f"`.{n.key.attr}` is not unique within a dimension (explicit insertion ids may repeat or collide with generated ones; names and anchors repeat freely): a later entry replaces an earlier one"))
         if ordering_scope:
             if isinstance(n, (ast.For, ast.comprehension)) and isinstance(n.iter, ast.Call) and u(n.iter.func) in ("set", "frozenset"):
                 out.append(("unordered", u(n.iter)[:70], "iteration order of a set is arbitrary: the order built from it is not the specified one"))
@@ -41,6 +49,8 @@ def scan_function(fn: ast.AST, member_name: str, ordering_scope: bool) -> List[T
 
 CONTROL = '''
 def f(self, counts, order):
+    z = np.unique(counts) if False else min(1.0, self._fraction)
+    by_id = {s.insertion_id: d for s, d in zip(self._subtotals, self._defaults)}
     a = counts // 2
     b = counts.astype("int64")
     if self._anchor is "top" or self._window is 2:
@@ -56,4 +66,4 @@ def columns_scale_median_margin(self, c):
 
 def self_check() -> Tuple[int, int]:
     t = ast.parse(CONTROL)
-    return len(scan_function(t.body[0], "f", True)), len(scan_function(t.body[1], "columns_scale_median_margin", True))
+    return len(scan_function(t.body[0], "f", True)) + len(scan_function(t.body[0], "f", False)), len(scan_function(t.body[1], "columns_scale_median_margin", True))
